@@ -129,6 +129,33 @@ Theorem C19_schedules_locked_env : forall g0, genesis_ok g0 -> forall pre_of s t
 Proof. exact locked_schedules_env. Qed.
 Print Assumptions C19_schedules_locked_env.
 
+(* Readers that take the read lock (GetGroupById, GetGroupByHeight, GetSyncGroupsByHeight,
+   Iterator.MovePre) cannot run between the store writes of a write critical section (save, remove and
+   the whole removeFromCommonAncestor loop hold the write lock): they see a state after a prefix of the
+   schedule, which satisfies the invariant and the property. *)
+Theorem C19_locked_readers : forall g0, genesis_ok g0 -> forall pre_of s ts evs n,
+  InvC g0 pre_of s -> Forall (thread_ok pre_of) ts ->
+  let r := locked_reader_state true g0 s ts evs n in InvC g0 pre_of r /\ Spec g0 r.
+Proof. exact locked_readers. Qed.
+Print Assumptions C19_locked_readers.
+
+(* A by-id reader WITHOUT the lock: harmless inside save (the id record is written first) ... *)
+Theorem C19_unlocked_by_id_reader_save : forall k s g i, i <> gid g ->
+  get_by_id (save_sub k s g) i = get_by_id s i.
+Proof. exact save_sub_by_id. Qed.
+Print Assumptions C19_unlocked_by_id_reader_save.
+
+(* ... but inside remove, whose first write deletes the id record, it sees LastGroup() naming a group
+   that cannot be found by id, which no state between operations shows. *)
+Theorem C19_unlocked_by_id_reader_refuted :
+  let s := fst (run true wg0 (init wg0) [Add wg1]) in
+  let m := remove_sub 1 s (last s) in
+  last m = set_height wg1 1 /\ count m = 2 /\ get_by_height s 1 = Some (last m) /\
+  get_by_id m (gid (last m)) = None /\
+  forall s', InvW wg0 s' -> get_by_id s' (gid (last s')) <> None.
+Proof. exact unlocked_by_id_reader_refuted. Qed.
+Print Assumptions C19_unlocked_by_id_reader_refuted.
+
 (* ---- readers that do not take the lock (Count(), LastGroup()) ----
    Between operations Count() = LastGroup().GroupHeight + 1. *)
 Theorem C19_count_is_last_height_plus_one : forall P g0 s, InvP P g0 s -> count s = gheight (last s) + 1.
